@@ -46,7 +46,7 @@ def make_doc(streams):
 SIG = {
     "q": "", "Q": "", "cm": "nnnnnn", "w": "n", "d": "an", "g": "n", "G": "n", "rg": "nnn", "RG": "nnn", "k": "nnnn", "K": "nnnn",
     "cs": "N", "CS": "N", "m": "nn", "l": "nn", "c": "nnnnnn", "v": "nnnn", "y": "nnnn", "h": "", "re": "nnnn",
-    "S": "", "s": "", "f": "", "f*": "", "B": "", "B*": "", "b": "", "b*": "", "n": "",
+    "S": "", "s": "", "f": "", "f*": "", "B": "", "B*": "", "b": "", "b*": "", "n": "", "Do": "N",
 }
 PAINT = {  # operator -> (close, stroke, fill, evenodd)   ISO 32000-1 Table 60
     "S": (False, True, False, False), "s": (True, True, False, False), "f": (False, False, True, False),
@@ -69,7 +69,7 @@ class Crash(Exception):
 
 
 class GM:
-    __slots__ = ("gs", "stack", "path", "out", "dev", "gscs", "gncs", "crashed", "illformed_sc")
+    __slots__ = ("gs", "stack", "path", "out", "dev", "gscs", "gncs", "crashed", "illformed_sc", "res")
 
     def __init__(self, dev=frozenset()):
         self.gs = dict(GS0)
@@ -82,12 +82,14 @@ class GM:
         self.gscs = self.gncs = "DeviceGray"  # colour spaces as interpreter globals (only under D_QCS)
         self.crashed = False
         self.illformed_sc = False
+        self.res: Dict[str, str] = {}  # XObject resource name -> key of FORMS (family forms)
 
     def copy(self) -> "GM":
         o = GM.__new__(GM)
         o.gs = dict(self.gs)
         o.stack, o.path, o.out, o.dev = self.stack, self.path, self.out, self.dev
         o.gscs, o.gncs, o.crashed, o.illformed_sc = self.gscs, self.gncs, self.crashed, self.illformed_sc
+        o.res = self.res
         return o
 
     def key(self):
@@ -168,8 +170,26 @@ class GM:
             self.path = ()
         elif op == "n":
             self.path = ()
+        elif op == "Do":
+            self._form(a[0][1:])
         else:
             raise KeyError(op)
+
+    def _form(self, name):
+        """ISO 32000-1 8.10.1: save the graphics state, concatenate the form's Matrix with the CTM (as cm would:
+        CTM' = Matrix x CTM), paint the content with the graphics state in force, restore the graphics state."""
+        key = self.res.get(name)
+        if key is None:
+            return
+        f = FORMS[key]
+        inner = self.copy()
+        inner.stack = ()
+        inner.path = ()
+        inner.res = f["xobjects"]
+        inner.gs["ctm"] = gfx.mat_mul(gfx.mat(*f["matrix"]), self.gs["ctm"])
+        for ev in f["events"]:
+            inner._do(ev)
+        self.out = inner.out
 
     def _close(self):
         if not self.path:
@@ -465,7 +485,10 @@ META = {
         "followed by another object; family ill: path objects up to ill_len with one ill-formed construction operator inserted at every position "
         "after the first segment; family pages: for every path object of at most pages_len construction operators a 15-page document processed by one "
         "interpreter and one device in which pages end with that object neither painted nor ended by n (alone, or after a painted object), each followed by "
-        "a page painting one of 3 fixed programs, plus pages that invoke a form XObject ending the same way before painting; family leak: "
+        "a page painting one of 3 fixed programs, plus pages that invoke a form XObject ending the same way before painting; family forms: every caller CTM of the 7-matrix pool x "
+        "every form XObject /Matrix of a 5-matrix pool (translation, scale(2,3), rot90, shear, identity) with three painted paths inside, and x every pair "
+        "of matrices for a form that invokes a second form under q cm Q and then paints its own path; a closed path painted after Do checks the caller's CTM; "
+        "family leak: "
         "a page (or form, or earlier document in the same process) defining ICCBased N=3 / N=4 colour spaces by name, then pages that do not define the name and "
         "execute 'cs|CS /Name' followed by a one-operand sc|SC and the probe (3 definitions x 4 arrangements x 4 users). A case = one path object x end operator x CTM, or one gs history + probe; non-trivial = at least one shape expected. "
         "states = gs states + nodes of the path-construction tree, transitions = operator applications, traces = programs compared with the model."
@@ -477,7 +500,7 @@ META = {
         "operators other than path construction between the first construction operator and the painting operator, F, W/W*",
         "colours are not judged before a colour has been set in the current colour space (ISO initial values vs pdfminer None), nor in a Pattern space",
         "dashing_style None is accepted for 'never set'",
-        "form XObjects, inline images, shading are outside this property's quantifier",
+        "form XObjects appear only in the families forms/pages/leak (fixed contents); inline images and shading are outside this property's quantifier",
     ],
 }
 DEADLINE = {"quick": 1500, "thorough": 4 * 3600}
@@ -656,6 +679,67 @@ def pages_check(ck, tail, st):
                      [gfx.fl(e) for e in exps], obss, "path abandoned at the end of a page / form shows up later: " + ",".join(sorted(bad)))
 
 
+# ------------------------------------------------------------------ family: paths inside form XObjects
+FORM_MATS = [
+    (1, 0, 0, 1, 100, 50),        # translation
+    (2, 0, 0, 3, 0, 0),           # anisotropic scale
+    (0, 1, -1, 0, 96, 0),         # rotation by 90
+    (1, 0, Fr(1, 2), 1, 0, 0),    # shear
+    (1, 0, 0, 1, 0, 0),           # identity
+]
+FORM_BODY = (("re", 8, 16, 16, 32), ("B",), ("m", 40, 16), ("l", 56, 24), ("S",), ("m", 8, 16), ("c", 10, 30, 20, 40, 24, 48), ("f*",))
+# a form that invokes another form and then paints itself: its own path must again use its own CTM
+NEST_BODY = (("q",), ("cm", 1, 0, 0, 1, 4, 8), ("Do", "/In"), ("Q",), ("m", 40, 56), ("l", 8, 32), ("S",))
+AFTER_FORM = (("m", 24, 48), ("l", 40, 56), ("l", 8, 32), ("h",), ("S",))
+FORMS: Dict[str, Dict[str, Any]] = {}
+for _i, _m in enumerate(FORM_MATS):
+    FORMS[f"Fm{_i}"] = {"matrix": _m, "events": FORM_BODY, "xobjects": {}}
+for _i, _m in enumerate(FORM_MATS):
+    for _j in range(len(FORM_MATS)):
+        FORMS[f"Nf{_i}x{_j}"] = {"matrix": _m, "events": NEST_BODY, "xobjects": {"In": f"Fm{_j}"}}
+
+
+def forms_check(st):
+    """every caller CTM of the pool x every form Matrix (and every Matrix pair for form-in-form): most pairs do not commute"""
+    d = G.Doc()
+    refs: Dict[str, Any] = {}
+    for key in sorted(FORMS, key=lambda k: (k[0] != "F", k)):
+        f = FORMS[key]
+        res: Dict[str, Any] = {}
+        if f["xobjects"]:
+            res["XObject"] = {n: refs[k] for n, k in f["xobjects"].items()}
+        refs[key] = d.add(G.Stream({"Type": G.N("XObject"), "Subtype": G.N("Form"), "BBox": [0, 0, 400, 400],
+                                    "Matrix": list(f["matrix"]), "Resources": res}, gfx.program(f["events"])))
+    page_res = {"XObject": dict(refs)}
+    pages, progs = [], []
+    for cm in CTMS:
+        for key in sorted(FORMS):
+            evs = (("w", 2),) + ((cm,) if cm else ()) + (("Do", "/" + key),) + AFTER_FORM
+            progs.append(evs)
+            pages.append((gfx.program(evs), page_res))
+    data = gfx.pages_doc(pages, doc=d)
+    out = gfx.run_pages(data)
+    st.traces += 1
+    if len(out) != len(pages):
+        st.violation("C16/forms:pages", {"family": "forms"}, len(pages), len(out), "page count")
+    for evs, (lt, exc) in zip(progs, out):
+        m = GM()
+        m.res = {k: k for k in FORMS}
+        for ev in evs:
+            m._do(ev)
+        exp = list(m.out)
+        obs = observe(lt) if exc is None else gfx.exc_sig(exc)
+        bad = diff(exp, obs) if exc is None else ["exception"]
+        st.case(None, nontrivial=True, outcome=h64(repr([(o["cls"], o["pts"]) for o in obs]) if exc is None else obs))
+        if bad:
+            sig = "C16/path-in-form-xobject:" + ",".join(sorted(bad))
+            st.violation(sig, {"family": "forms", "events": list(evs), "pdf": data if st.viol_counts[sig] < 1 else b""},
+                         gfx.fl(exp), obs, "shapes painted inside / after a form XObject with a Matrix: " + ",".join(sorted(bad)))
+    st.states += len(pages) + 1
+    st.transitions += len(pages)
+    st.add("form_pages", len(pages))
+
+
 # ------------------------------------------------------------------ family: named colour spaces do not leak
 def leak_check(st):
     """A page's /ColorSpace names exist for that page only.  Later pages, forms' callers and later documents that do
@@ -735,6 +819,7 @@ def shards(tier):
     out.append(("ill",))
     out += [("pages", i) for i in range(PAGES_SHARDS)]
     out.append(("leak",))
+    out.append(("forms",))
     return out
 
 
@@ -797,6 +882,11 @@ def run_shard(shard, tier, st):
         if batch:
             run_batch(ck, (("w", 2),), batch, st, "ill-formed construction operator")
         st.add("illformed_path_objects", n)
+    elif kind == "forms":
+        ck = Checker(st)
+        forms_check(st)
+        st.sample({"family": "forms", "page": gfx.program((("w", 2), CTMS[2], ("Do", "/Nf0x2")) + AFTER_FORM), "Nf0x2": gfx.program(NEST_BODY),
+                   "matrices": [list(map(float, m)) for m in FORM_MATS]})
     elif kind == "leak":
         ck = Checker(st)
         leak_check(st)
@@ -817,6 +907,13 @@ def run_shard(shard, tier, st):
 
 
 def replay(case):
+    if case.get("family") == "forms":
+        from mc.core import Stats
+
+        st = Stats()
+        forms_check(st)
+        return [{"signature": v["signature"], "expected": repr(v["expected"]), "observed": repr(v["observed"])}
+                for v in st.violations][:1]
     if case.get("family") == "leak":
         from mc.core import Stats
 
